@@ -4,9 +4,12 @@ import (
 	"fmt"
 	"go/ast"
 	"go/types"
+	"os"
 	"reflect"
+	"runtime/pprof"
 	"sort"
 	"strings"
+	"time"
 
 	"siotcheck/kit"
 )
@@ -228,6 +231,12 @@ func c11Set(c *kit.Ctx) (set []*kit.Func, writers []*kit.Func, roots map[*kit.Fu
 }
 
 func runC11(c *kit.Ctx) {
+	if pf := os.Getenv("SIOT_PPROF"); pf != "" {
+		if fh, err := os.Create(pf); err == nil {
+			pprof.StartCPUProfile(fh)
+			defer pprof.StopCPUProfile()
+		}
+	}
 	r1 := c.Rule("R1", "reflect index/slice/length bounded by 0 and Len()/Cap() of the same value", 5)
 	r2 := c.Rule("R2", "kind, validity and nil preconditions of reflect calls", 60)
 	set, writers, roots := c11Set(c)
@@ -316,7 +325,7 @@ func runC11(c *kit.Ctx) {
 			}
 		}
 	}
-	var rootNames []string
+	var rootNames, visited []string
 	for _, f := range set {
 		if !roots[f] {
 			continue
@@ -419,12 +428,15 @@ func runC11(c *kit.Ctx) {
 				s.by["both arguments array/slice"] = true
 			}
 		}
+		t0 := time.Now()
 		res := ri.Run()
+		visited = append(visited, fmt.Sprintf("%s %d states %.1fs", f.Name, res.Visited, time.Since(t0).Seconds()))
 		if res.Overflow || ri.Overflowed {
 			r2.Ob(f, nil, "interpretation of "+f.Name, "state space explored").Undecided("state bound exceeded after %d states", res.Visited)
 			continue
 		}
 	}
+	c.Note("root runs: %s", strings.Join(visited, "; "))
 	c.Note("analysed with arbitrary arguments: %s; the other members are interpreted in the contexts of their callers", strings.Join(rootNames, ", "))
 	for _, f := range set {
 		for _, key := range orderBy[f] {
